@@ -636,6 +636,133 @@ def check_C05(run):
     return run.finish('fault_enumeration', cov)
 
 
+def check_C06(run):
+    """Crash recovery: (a) crash images (kill: all completed writes; power loss: durable prefix plus none / all /
+    torn later writes per file) built from recorded executions at every step boundary (thorough: after every
+    I/O event) and recovered by the real init with data validation off and on; the recording extended with the
+    crash and recovery events is validated by TLC against PearlIO (ImageAllowed, RecoveryOK); (b) real child
+    processes killed with SIGKILL at random instants."""
+    q = Q(run)
+    se = store.StoreEngine(run)
+    io = pvio.IOEngine(run, se)
+    run.build()
+    suites = [
+        dict(name='crash-2k', consts=dict(Keys='{1, 2}', MaxTs='2', Sizes='{"s", "e4k+"}'), genlen=3 if q else 4,
+             acts=['write', 'close_active', 'create_active'], nkeys=2, sample=(1, 17) if q else (1, 3)),
+    ]
+    images = failed = 0
+    kinds = {}
+    for s in suites:
+        s = dict(s)
+        nkeys = s.pop('nkeys')
+        r = se.generate(**s)
+        shards = min(NCPU, 12)
+        files = [open(os.path.join(run.work, 'crshard-%d.txt' % i), 'w') for i in range(shards)]
+        n = 0
+        for line in open(r['out'], errors='replace'):
+            if line.startswith('<<"BEHAVIOUR"'):
+                files[n % shards].write(line)
+                n += 1
+        for f in files:
+            f.close()
+        os.remove(r['out'])
+        procs = []
+        for i in range(shards):
+            h = dict(rt='mt' if i % 2 else 'ct', bloom='small', group=2, wait=True, seed=run.seed * 100 + i)
+            out = os.path.join(run.work, 'crash-%d.out' % i)
+            tr = os.path.join(run.work, 'crash-%d.ndjson' % i)
+            cmd = [os.path.join(BIN, 'crash'), '--cfg', json.dumps(h), '--nkeys', str(nkeys), '--out', tr] + ([] if q else ['--dense'])
+            procs.append((subprocess.Popen(cmd, stdin=open(files[i].name), stdout=open(out, 'w'), stderr=open(out + '.err', 'w')), out, tr, h))
+        for p, out, tr, h in procs:
+            rc = p.wait()
+            ok = False
+            for line in open(out, errors='replace'):
+                if line.startswith('MISMATCH '):
+                    rec = json.loads(line[9:])
+                    m = rec['mismatches'][0]
+                    run.violation('C06', rec, 'crash image %s: %s: %s' % (json.dumps(rec['case'])[:300], m['kind'], str(m.get('got'))[:300]))
+                elif line.startswith('RESULT '):
+                    res = json.loads(line[7:])
+                    ok = True
+                    images += res['images']
+                    failed += res['failed']
+                    for k, v in res.get('by_kind', {}).items():
+                        kinds[k.split(':')[0] + (':' + k.split(':')[1].split('-', 1)[-1] if ':' in k and '-' in k else (':' + k.split(':')[1] if ':' in k else ''))] = kinds.get(k, 0) + v
+                    if res.get('sample') and len(run.samples) < 3:
+                        run.samples.append(res['sample'])
+            if rc != 0 or not ok:
+                raise ToolError('crash driver failed rc=%s (%s)' % (rc, out))
+        run.log('%d behaviours -> %d crash images recovered, %d direct findings' % (n, images, failed))
+        from concurrent.futures import ThreadPoolExecutor
+
+        def val(j):
+            tr, name = j
+            res = io.validate(tr, name)
+            io.traces += 1
+            if not res['ok']:
+                lines = open(tr).read().splitlines()
+                at = res['rejected_at'] or 1
+                ev = json.loads(lines[at - 1]) if at - 1 < len(lines) else {}
+                start = at - 1
+                while start > 0 and '"ev":"reset"' not in lines[start].replace(' ', ''):
+                    start -= 1
+                ctx = [json.loads(x) for x in lines[start:at]]
+                brief = [dict((k, e[k]) for k in e if k in ('ev', 'f', 'off', 'len', 'a', 'op', 'cuts', 'acked', 'served', 'quar', 'restored', 'label', 'validate')) for e in ctx if e.get('ev') not in ('call', 'ret', 'quiescent')]
+                what = res['inv'] or ('event %s not allowed' % ev.get('ev'))
+                run.violation('C06', dict(kind='crash-trace', verdict=what, events=brief[-60:]),
+                              'crash / recovery not allowed by the specification (%s): %s' % (what, json.dumps(ev)[:400]))
+        jobs = [(tr, 'tvc-%d' % i) for i, (p, out, tr, h) in enumerate(procs) if os.path.getsize(tr) > 0]
+        with ThreadPoolExecutor(max_workers=6) as ex:
+            list(ex.map(val, jobs))
+    # (b) real kills
+    kills = 0
+    acked = 0
+    kprocs = []
+    for i, rtn in enumerate(['mt', 'ct'] * (1 if q else 4)):
+        out = os.path.join(run.work, 'kill-%d.out' % i)
+        cmd = [os.path.join(BIN, 'crash'), '--kills', str(8 if q else 40), '--rt', rtn, '--seed', str(run.seed * 10 + i)]
+        kprocs.append((subprocess.Popen(cmd, stdout=open(out, 'w'), stderr=open(out + '.err', 'w')), out))
+    for p, out in kprocs:
+        rc = p.wait()
+        ok = False
+        for line in open(out, errors='replace'):
+            if line.startswith('MISMATCH '):
+                rec = json.loads(line[9:])
+                m = rec['mismatches'][0]
+                run.violation('C06', rec, 'after SIGKILL %s: %s' % (json.dumps(rec['case']), str(m.get('got'))[:300]))
+            elif line.startswith('RESULT '):
+                res = json.loads(line[7:])
+                ok = True
+                kills += res['kills']
+                acked += res['acked_records']
+        if rc != 0 or not ok:
+            raise ToolError('kill driver failed rc=%s (%s)' % (rc, out))
+    run.log('%d real kills, %d acknowledged records checked' % (kills, acked))
+    if not run.violations and jobs:
+        # negative control: a kill image from which an acknowledged record is not served must be rejected
+        lines = [json.loads(x) for x in open(jobs[0][0]).read().splitlines()]
+        idx = next((i for i, e in enumerate(lines) if e.get('ev') == 'recovered' and e.get('op') == 'kill' and e.get('served')), None)
+        if idx is not None:
+            start = max(i for i in range(idx) if lines[i].get('ev') == 'reset')
+            one = json.loads(json.dumps(lines[start:idx + 1]))
+            one[-1]['served'] = one[-1]['served'][:-1]
+            pth = os.path.join(run.work, 'neg-crash.ndjson')
+            open(pth, 'w').write('\n'.join(json.dumps(e) for e in one) + '\n')
+            if io.validate(pth, 'neg-crash')['ok']:
+                raise ToolError('negative control failed: a kill image that lost an acknowledged record was accepted')
+            run.log('negative control: lost record after a kill rejected')
+    cov = dict(evaluations=images + kills, distinct_nontrivial=images + kills, crash_images=images, image_kinds=kinds, real_kills=kills,
+               acked_records_checked_after_kills=acked, states=io.tlc_states, traces_validated_against_impl=io.traces,
+               rule='an image = (behaviour, crash point, kind: kill / durable-only / one file complete / torn write at a length, data '
+                    'validation off / on); each is recovered by the real init, then a write + restart checks usability; a real kill = '
+                    'SIGKILL of a writing child process at a random instant, twice per directory')
+    run.assumptions += ['power-loss model: per file the durable prefix (writes completed before the call of a completed sync) plus a prefix of the '
+                        'later writes, the last possibly torn; no reordering below a sync, no directory-entry loss',
+                        'deletes are not in the crash alphabets (every record must be observable through read_all)',
+                        'the real-kill part is judged by the kill clause of RecoveryOK applied by the driver (acked records served or restorable); it is not a TLC run']
+    return run.finish('fault_enumeration', cov)
+
+
 def check_C08(run):
     """Concurrent clients: deadlock freedom of the synchronisation skeleton (PearlConc, TLC) and
     trace validation of real concurrent executions against TraceConc."""
@@ -846,7 +973,7 @@ def check_C17(run):
     return run.finish('exploration', cov)
 
 
-CHECKS = {'C01': check_C01, 'C02': check_C02, 'C03': check_C03, 'C04': check_C04, 'C05': check_C05, 'C07': check_C07, 'C08': check_C08, 'C09': check_C09, 'C10': check_C10, 'C11': check_C11,
+CHECKS = {'C01': check_C01, 'C02': check_C02, 'C03': check_C03, 'C04': check_C04, 'C05': check_C05, 'C06': check_C06, 'C07': check_C07, 'C08': check_C08, 'C09': check_C09, 'C10': check_C10, 'C11': check_C11,
           'C12': check_C12, 'C13': check_C13, 'C14': check_C14, 'C15': check_C15, 'C16': check_C16, 'C17': check_C17}
 
 
